@@ -37,11 +37,18 @@ def find_peaks(data, min_peak_distance, min_peak_height):
 @_nb.njit()
 def _find_peaks_numba_core(data, maximas, min_peak_distance):
     for i in range(len(maximas)):
+        if maximas[i] == -1:
+            continue
         p = i
-        while p < (len(maximas) - 1) and abs(maximas[i] - maximas[p + 1]) < min_peak_distance:
+        while p < (len(maximas) - 1):
             p += 1
+            if maximas[p] == -1:
+                continue
+            if abs(maximas[i] - maximas[p]) >= min_peak_distance:
+                break
             if data[maximas[i]] < data[maximas[p]]:
                 maximas[i] = -1
+                break
             else:
                 maximas[p] = -1
     return maximas[maximas > -1]
